@@ -1,5 +1,6 @@
 import Mkdb.Proofs.Tree
 import Mkdb.Proofs.Forest
+import Mkdb.Proofs.RefineScan
 /-!
 # C11 — the on-disk B+ tree keeps its shape invariants
 
@@ -96,3 +97,17 @@ example : ((runOps (emptyTree 4096, 8192) ((List.range' 1 20).map fun k => .ins 
   decide
 
 end Mkdb.Tree
+
+namespace Mkdb.Refine
+open Mkdb.Store Mkdb.Tree Mkdb.Page
+
+/-- **C11.heap_lookup_finds_every_key**: on the heap model, `findLeaf` (the routing of `findCell`,
+`MarkDeleted` and log replay) from the root of a well-formed tree held by the page heap reaches, for
+every stored key, the leaf that holds it, and the key search in that leaf finds the cell. -/
+theorem C11_heap_lookup_finds_every_key (s : Store) (t : Levels) (nf : Nat) (hH : Holds s t) (hI : Inv t nf)
+    (hF : Filed s) (hdepth : t.inner.length + 1 ≤ treeFuel) (c : LeafCell) (hc : c ∈ cells t) :
+    ∃ s' l, findLeaf treeFuel (rootOff t) c.key s = .ok l s' ∧ (∃ d, (l, d) ∈ t.leaves) ∧
+      c ∈ l.cells ∧ l.cells.find? (fun x => x.key == c.key) = some c ∧ Holds s' t :=
+  findLeaf_finds s t nf hH hI hF hdepth c hc
+
+end Mkdb.Refine
